@@ -30,6 +30,13 @@ theorem applyFn1_rowwise (f : Fr.Frame) (L : Nat) (h : Fr.WF f L) (fn : Fr.Val â
   Fr.applyFn1_rowwise f L h fn rty src hl
 
 /-- T1: the functions this property's mirror model follows have today the source text the model was written against. -/
-theorem tie : Tie.sameAll ["qframe.setColumn", "qframe.QFrame.Apply", "qframe.QFrame.apply0", "qframe.QFrame.apply1", "qframe.QFrame.apply2", "qframe.QFrame.FilteredApply", "qframe.QFrame.WithRowNums", "icolumn.Column.Apply1", "icolumn.Column.Apply2", "scolumn.toUpper", "ecolumn.toUpper"] = true := by decide
+-- Tie audit (bin/selftest-ties): the following functions are not compared as text any more; every behaviour-changing edit of
+-- them makes a `gen_*_canon` theorem of this property's modules fail, renaming their locals or reformatting them changes nothing:
+-- `QFrame.Apply`, `QFrame.apply0`, `icolumn.Column.Apply1`, `icolumn.Column.Apply2`: `Gen.applyAst` / `Gen.guardAst2` (gast.go) and `Gen.apply0Ast` / `Gen.apply1Ast` / `Gen.apply2Ast` (last.go),
+-- `C10Guards.gen_apply_canon` + `gen_apply_dispatch` / `gen_apply_loop`, `C10Guards.gen_guards2_canon`, `C06LoopsGen.gen_apply0_canon` / `gen_apply1_canon` / `gen_apply2_canon` + `gen_apply_loops_semantics`.
+-- (`QFrame.setColumn` stays: its column work is regenerated as `Gen.projectAst`, but `C08ProjectGen` cannot be imported next to `C06LoopsGen` -
+-- `QF.Core.PExpr` and `QF.Core.LExpr` both declare `QF.PCol` - so no theorem of this property would see a change of it.)
+-- `setColumn` is regenerated in `Gen.projectAst` (C08ProjectGen, now in this property's list: gen_project_semantics, gen_project_persistent).
+theorem tie : Tie.sameAll ["qframe.QFrame.apply1", "qframe.QFrame.apply2", "qframe.QFrame.FilteredApply", "qframe.QFrame.WithRowNums", "scolumn.toUpper", "ecolumn.toUpper"] = true := by decide
 
 end QF.Props.C06
